@@ -51,6 +51,9 @@ func init() {
 }
 
 func runC06(c *Ctx, r *Report) {
+	importFoundation(c, r, "C06", "lock-paired")
+	r.Rule("C06/no-blind-consumer", "no library loop waits for device output through a queue read that does not observe the reader's exit", 1)
+	checkNoBlindConsumer(c, r, "C06/no-blind-consumer")
 	importFoundation(c, r, "C06", "callbacks")
 	importFoundation(c, r, "C06", "read-loop")
 	r.Rule("C06/conn-never-nil", "a connection handle of interface type that a transport invokes without a nil test is never reset to nil (a nil store makes the next Close / Write / Read panic instead of failing)", 1)
